@@ -1,4 +1,4 @@
-// C12 finding (undefined behaviour, UBSan -fsanitize=enum): the OpenPGP packet decoder stores wire bytes into enum-typed
+// C12 observation (not a C12 violation; undefined behaviour flagged only by UBSan -fsanitize=enum, which the asan flavour no longer enables): the OpenPGP packet decoder stores wire bytes into enum-typed
 // fields of tmcg_openpgp_packet_ctx_t without validating them and then loads them (e.g. "out.pkalgo = (tmcg_openpgp_pkalgo_t)
 // pkt[..]" followed by a switch / comparison).  A byte outside the value range of the enumeration is an invalid value for
 // the type; with the verification build flags (-fsanitize=undefined -fno-sanitize-recover) the process is terminated with
@@ -10,7 +10,7 @@
 // practice with GCC, which does not assume enum ranges unless -fstrict-enums), so this is a UB / hardening finding.
 // keys: c12/openpgp/ubsan-load-of-value@RFC4880::PacketDecodeTag1, ...Tag2, ...Tag3, ...Tag57, ...Tag614,
 //       c12/openpgp/ubsan-load-of-value@RFC4880::PublicKeyBlockParse_Tag2, ..._Tag14, c12/openpgp/ubsan-load-of-value@RFC4880::SignaturesParse
-// build: g++ -g -O1 -fsanitize=address,undefined -fno-sanitize-recover=undefined -w -DHAVE_CONFIG_H -I/repo -I/repo/src -I/verif/drivers C12_openpgp_enum_load_ub.cc /verif/build/asan/libtmcg.a -lgcrypt -lgmp -lgpg-error
+// build: g++ -g -O1 -fsanitize=address,undefined -fno-sanitize-recover=undefined -w -DHAVE_CONFIG_H -I/repo -I/repo/src -I/verif/drivers obs_c12_openpgp_enum_load_ub.cc /verif/build/asan/libtmcg.a -lgcrypt -lgmp -lgpg-error
 // run:   ./a.out   -> "runtime error: load of value 255, which is not a valid value for type 'tmcg_openpgp_pkalgo_t'" and exit 1
 #include <libTMCG.hh>
 #include "c12_pgp_seeds.hh"
